@@ -1,0 +1,29 @@
+//go:build verif
+
+package encryption
+
+// Contracts checked by /verif's govc.  Comments only; build tag "verif".
+
+//@ unit encryption
+//@
+//@ extern (immutable.Option[encryption.DocEncConfig]).HasValue(o) -> (b)
+//@   pure
+//@ extern (immutable.Option[encryption.DocEncConfig]).Value(o) -> (v)
+//@   pure
+//@ extern (immutable.Option[string]).HasValue(o) -> (b)
+//@   pure
+//@ extern (immutable.Option[string]).Value(o) -> (v)
+//@   pure
+//@
+//@ // ===== C11: which fields are encrypted.  With document-level encryption every field is, whatever else the
+//@ // configuration lists; without a configuration none is; otherwise exactly the listed fields are
+//@ func shouldEncryptDocField -> (r)
+//@   ensures res(Option[DocEncConfig].HasValue, 1, 0) && res(Option[DocEncConfig].Value, 1, 0).IsDocEncrypted ==> r
+//@   ensures !res(Option[DocEncConfig].HasValue, 1, 0) ==> !r
+//@   ensures r && !called(Option[DocEncConfig].Value, 1) ==> false
+//@   tags C11
+//@ func shouldEncryptIndividualField -> (r)
+//@   ensures !res(Option[DocEncConfig].HasValue, 1, 0) ==> !r
+//@   ensures r ==> res(Option[string].HasValue, 1, 0)
+//@   ensures !r && res(Option[DocEncConfig].HasValue, 1, 0) && res(Option[string].HasValue, 1, 0) ==> exhausted(1)
+//@   tags C11
